@@ -466,7 +466,8 @@ func (res *CheckResult) checkSource(source parser.Source) {
 			res.unboundedAccountInSend = source.Address
 		}
 
-		if res.unboundedSend {
+		// a bounded overdraft is a bounded source: only the unbounded one is forbidden in "send all"
+		if res.unboundedSend && source.Bounded == nil {
 			res.Diagnostics = append(res.Diagnostics, Diagnostic{
 				Range: source.Address.GetRange(),
 				Kind:  &InvalidUnboundedAccount{},
